@@ -52,6 +52,7 @@ func newSymtab(w *world) *symtab {
 		gov("C v1stake", 2, types.AergoSystem, types.StakingMinimum, nk.GovPayload("v1stake")),
 		gov("A appendAdmin C", 0, types.AergoEnterprise, new(big.Int), nk.GovPayload("appendAdmin", types.EncodeAddress(s.addrs[2]))),
 		gov("A appendConf", 0, types.AergoEnterprise, new(big.Int), nk.GovPayload("appendConf", "ACCOUNTWHITE", types.EncodeAddress(s.addrs[0]))),
+		gov("A enableConf RPCPERMISSIONS", 0, types.AergoEnterprise, new(big.Int), []byte(`{"Name":"enableConf","Args":["RPCPERMISSIONS",true]}`)),
 		{name: "transfer nameB -> A", signer: 1, body: &types.TxBody{Account: s.addrs[1], Recipient: []byte(lx.NameB), Amount: []byte{1}, Type: types.TxType_TRANSFER, GasPrice: stdPrice}},
 	}
 	return s
@@ -219,6 +220,10 @@ func (s *symtab) commands() []command {
 		{"setConf", ent, "0", [3]interface{}{"ACCOUNTWHITE", addr(0), addr(1)}},
 		{"appendConf", ent, "0", [3]interface{}{"ACCOUNTWHITE", addr(0), addr(1)}},
 		{"removeConf", ent, "0", [3]interface{}{"ACCOUNTWHITE", addr(0), addr(1)}},
+		// a configuration whose stored values are parsed again by every later validation: values of the
+		// right shape (certificate:permission) that carry the character the storage format uses as separator
+		{"setConf", ent, "0", [3]interface{}{"RPCPERMISSIONS", "dGVzdA==:R\\x", "dGVzdA==:W"}},
+		{"appendConf", ent, "0", [3]interface{}{"RPCPERMISSIONS", "dGVzdA==:R\\x", "dGVzdA==:W"}},
 		{"enableConf", ent, "0", [3]interface{}{"ACCOUNTWHITE", "true", "x"}},
 		{"disableConf", ent, "0", [3]interface{}{"ACCOUNTWHITE", "true", "x"}},
 		{"changeCluster", ent, "0", [3]interface{}{map[string]interface{}{"command": "add", "name": "n4", "address": "/ip4/127.0.0.1/tcp/7846", "peerid": bp(3)}, "x", "y"}},
